@@ -96,6 +96,10 @@ def generate(rng, tier):
             v = gm.jitter(v, rng, 0.02)
         if rng.random() < 0.3:
             v, t, _ = gm.relabel(v, t, rng)
+        if len(cases) % 5 == 3:
+            # inconsistently wound input: the flow does not depend on the winding and must hand the connectivity back as it was
+            t, _ = gm.flip_some(t, rng, 0.4)
+            fam = fam + "_mixed_winding"
         scale = rng.choice([1.0, 1.0, 1.0, 0.01, 100.0, 1e-5, 1e-9])        # metres .. nanometres: the FEM guards act on absolute areas
         off = [rng.uniform(-2, 2) * scale for _ in range(3)] if rng.random() < 0.5 else [0.0, 0.0, 0.0]
         v = (np.array(v, dtype=float) * scale + np.array(off)[None, :]).tolist()
@@ -105,9 +109,9 @@ def generate(rng, tier):
         c = {"family": fam, "v": v, "t": t, "max_iter": rng.choice([0, 1, 1, 2, 3, 5]), "step": rng.choice([1.0, 1.0, 0.5, 2.0, 0.1]),
              "stop_eps": rng.choice([1e-13, 1e-13, 1e-6, 1e-3]), "scale": scale, "vdtype": vd, "tdtype": rng.choice(["int64", "int32"]),
              "project": None}
-        if fam == "graded":
+        if fam.startswith("graded"):
             c.update({"max_iter": rng.choice([2, 3]), "stop_eps": 1e-13})
-        if fam == "star" and rng.random() < 0.6:
+        if fam.startswith("star") and rng.random() < 0.6:
             c.update({"max_iter": 10, "step": 1.0, "stop_eps": 1e-13})      # long enough for the smoothing to dominate
         cases.append(c)
     # projection cases
